@@ -45,7 +45,7 @@ def warm_start(
     pstart = f.variables["particle_count"][:-1].sum()
     pcount = f.variables["particle_count"][-1]
     pend = pstart + pcount
-    pid_max = np.max(f.variables["pid"][:]) + 1
+    pid_max = particles_released(f)
 
     logger.info("antall partikler = %s", pcount)
 
@@ -83,3 +83,12 @@ def warm_start(
     #     state.variables["alive"] = np.ones(pcount).astype("bool")
     # if "active" not in wvars:
     #     state.variables["active"] = np.ones(pcount).astype("bool")
+
+
+def particles_released(f: Dataset) -> int:
+    """Number of particles released so far in the simulation that wrote the file"""
+    if "particles_released" in f.ncattrs():
+        return int(f.getncattr("particles_released"))
+    # Files without the attribute, correct unless the latest particles are dead
+    pid = f.variables["pid"][:]
+    return int(np.max(pid)) + 1 if len(pid) > 0 else 0
